@@ -188,7 +188,8 @@ where
     let config = Config {
         cases: cfg.cases,
         failure_persistence: None,
-        max_shrink_iters: if cfg.expensive { 200 } else { 4096 },
+        // (a long_session case is thousands of searches: a dozen shrink steps at most)
+        max_shrink_iters: if cfg.part == "long_session" { 12 } else if cfg.expensive { 200 } else { 4096 },
         max_global_rejects: 1,
         max_local_rejects: 65_536,
         source_file: None,
